@@ -82,16 +82,15 @@ Proof. exact propose_keep_fuel. Qed.
 Print Assumptions C04_keep_closure_fuel_suffices.
 
 (* Reorder's topological sort runs on fuel in the model and until its queues are empty in reorder.go.
-   Whenever the computable bound reorder_fuel_ok holds - the driver evaluates it on every generated
-   case and reports a case where it fails - the sort inside reorder_funcs ends with all queues empty
-   and any larger amount of fuel gives the same run (potential argument: every node is processed
-   once, processing queues at most one node per before-edge and per produced / received type). *)
+   The fuel the model gives it is the potential of the start state (queued entries + for every node
+   one step and one per before-edge and per produced / received type); with it the sort inside
+   reorder_funcs ends with all queues empty and any larger amount of fuel gives the same run, for
+   every list of providers: the model's Reorder is the unfuelled algorithm. *)
 Theorem C04_reorder_sort_fuel_suffices : forall te funcs,
-  reorder_fuel_ok te funcs = true -> existsb is_reorder funcs = true ->
   let '(st, x1) := reorder_prepare te funcs in
-  queues_empty (topo_run te funcs (rs_down st) (rs_up st) (reorder_fuel st) x1) /\
-  forall extra, topo_run te funcs (rs_down st) (rs_up st) (reorder_fuel st + extra) x1
-                = topo_run te funcs (rs_down st) (rs_up st) (reorder_fuel st) x1.
+  queues_empty (topo_run te funcs (rs_down st) (rs_up st) (phi te funcs x1) x1) /\
+  forall extra, topo_run te funcs (rs_down st) (rs_up st) (phi te funcs x1 + extra) x1
+                = topo_run te funcs (rs_down st) (rs_up st) (phi te funcs x1) x1.
 Proof. exact reorder_fuel_sufficient. Qed.
 Print Assumptions C04_reorder_sort_fuel_suffices.
 
@@ -101,7 +100,7 @@ Theorem C04_reorder_runs_that_sort : forall te funcs,
   let '(st, x1) := reorder_prepare te funcs in
   let n := length funcs in
   let idx := seq_from 0 n in
-  let xf := topo_run te funcs (rs_down st) (rs_up st) (reorder_fuel st) x1 in
+  let xf := topo_run te funcs (rs_down st) (rs_up st) (phi te funcs x1) x1 in
   let out := t_out xf in
   let missing := filter (fun i => negb (memb i (t_done xf))) idx in
   let pick i := match getp funcs i with Some p => [p] | None => [] end in
@@ -110,8 +109,8 @@ Theorem C04_reorder_runs_that_sort : forall te funcs,
 Proof. exact reorder_funcs_prepare. Qed.
 Print Assumptions C04_reorder_runs_that_sort.
 
-(* non-vacuity: a list with a Reorder'd injector listed before its producer; the bound holds, the
-   start state has work queued, and the run empties the queues *)
+(* non-vacuity: a list with a Reorder'd injector listed before its producer; the start state has
+   work queued and the run empties the queues *)
 Definition fx_ty (c : nat) : tyinfo := mkTy c false 1 0 true true false [] 0.
 Definition fx_te : tyenv := mkTyenv [fx_ty 10; fx_ty 11; fx_ty 12] 1 2 3 4 5.
 Definition fx_prov (pid : nat) (cl : classT) (g : groupT) (reo : bool) (ins outs : list nat) : prov :=
@@ -122,8 +121,8 @@ Definition fx_funcs : list prov :=
   [fx_prov 1 ClInjector GRun false [] [10]; fx_prov 2 ClInjector GRun true [11] [12];
    fx_prov 3 ClInjector GRun false [10] [11]; fx_prov 4 ClFinal GFinal false [12] []].
 Example C04_reorder_fuel_nonvacuous :
-  reorder_fuel_ok fx_te fx_funcs = true /\ existsb is_reorder fx_funcs = true /\
-  0 < phi fx_te fx_funcs (snd (reorder_prepare fx_te fx_funcs)) /\
-  phi fx_te fx_funcs (snd (reorder_prepare fx_te fx_funcs)) <= reorder_fuel (fst (reorder_prepare fx_te fx_funcs)).
-Proof. vm_compute. repeat split; repeat constructor. Qed.
+  existsb is_reorder fx_funcs = true /\
+  0 < qlen (snd (reorder_prepare fx_te fx_funcs)) /\
+  exists r, reorder_funcs fx_te fx_funcs = Ok r /\ map p_pid r = [1; 3; 2; 4].
+Proof. split; [reflexivity|]. split; [vm_compute; repeat constructor|]. eexists. split; [vm_compute; reflexivity|reflexivity]. Qed.
 Print Assumptions C04_reorder_fuel_nonvacuous.
